@@ -9,7 +9,7 @@ git checkout -q -- . ; git clean -fdq crates
 DEMO=$(ls $OUT/*.rs | head -1)
 CRATE=$(grep -ho "crates/[a-z_]*/tests" $OUT/notes.md | head -1); CRATE=${CRATE:-crates/vecdb/tests}
 PKG=$(echo $CRATE | cut -d/ -f2)
-FEAT=""; [ "$PKG" = "vecdb" ] && FEAT="--features pco,lz4,zstd,zerocopy,derive"
+FEAT="--features verif_hooks"; [ "$PKG" = "vecdb" ] && FEAT="--features pco,lz4,zstd,zerocopy,derive,verif_hooks"
 cp $DEMO $CRATE/seeded_demo.rs
 git apply --check $OUT/patch.diff || { echo "PATCH-DOES-NOT-APPLY"; exit 1; }
 # without the change: demo passes
